@@ -96,6 +96,65 @@ def contract_scan():
     return bad
 
 
+def model_selftest(seed, rounds=300):
+    """Model validation (not deciding): SymIntMap behaves like dict / defaultdict(int) on seeded random operation
+    sequences (insertion order, membership, get, setdefault-by-missing, deletion, reversed, iteration)."""
+    import collections
+    import random
+    from dynverif.models import SymIntMap
+    rnd = random.Random(seed)
+    for r in range(rounds):
+        use_default = rnd.random() < 0.5
+        ref = collections.defaultdict(int) if use_default else {}
+        m = SymIntMap(default_factory=int if use_default else None)
+        for _ in range(rnd.randint(1, 25)):
+            k = rnd.randint(-3, 6)
+            op = rnd.choice(["set", "get", "del", "in", "getitem", "iter", "len", "rev"])
+            try:
+                if op == "set":
+                    v = rnd.randint(0, 9)
+                    ref[k] = v
+                    m[k] = v
+                elif op == "get":
+                    assert ref.get(k, "x") == m.get(k, "x")
+                elif op == "del":
+                    e1 = e2 = None
+                    try:
+                        del ref[k]
+                    except KeyError as ex:
+                        e1 = ex
+                    try:
+                        del m[k]
+                    except KeyError as ex:
+                        e2 = ex
+                    assert (e1 is None) == (e2 is None)
+                elif op == "in":
+                    assert (k in ref) == (k in m)
+                elif op == "getitem":
+                    e1 = e2 = None
+                    v1 = v2 = None
+                    try:
+                        v1 = ref[k]
+                    except KeyError as ex:
+                        e1 = ex
+                    try:
+                        v2 = m[k]
+                    except KeyError as ex:
+                        e2 = ex
+                    assert (e1 is None) == (e2 is None) and v1 == v2
+                elif op == "iter":
+                    assert list(ref) == list(m) and list(ref.items()) == list(m.items())
+                elif op == "len":
+                    assert len(ref) == len(m)
+                elif op == "rev":
+                    assert list(reversed(ref)) == list(reversed(m))
+            except AssertionError:
+                return "SymIntMap disagrees with dict in round %d (seed %d) on op %s key %r" % (r, seed, op, k)
+        if sorted(ref.keys()) != sorted(m.keys()):
+            return "SymIntMap keys disagree in round %d (seed %d)" % (r, seed)
+    return None
+
+
 def sha_sources():
     out = {}
     for rel in ANCHOR_GLOB:
@@ -162,6 +221,9 @@ def main(argv=None):
     violations = []
     known_lines = []
 
+    mv = model_selftest(seed)
+    if mv:
+        problems.append("model validation: " + mv)
     bad = contract_scan()
     if bad:
         problems.append("contract hygiene: docstring contracts found outside registered conditions: %s" % bad[:5])
@@ -312,6 +374,7 @@ def main(argv=None):
                 "engine": "CrossHair 0.0.110 + z3 5.1.0 (symbolic execution of the real /repo bytecode, regenerated each run)",
                 "tags_reached": sorted(tags_reached),
                 "known_findings_reproduced": known_lines,
+                "model_validation": "SymIntMap vs dict/defaultdict(int): 300 seeded random operation sequences (seed %d): %s" % (seed, mv or "agree"),
                 "inconclusive": problems,
             },
             "assumptions": list(reg.notes),
